@@ -21,6 +21,7 @@ open GA.Own
 
 inductive Obj where
   | self | out
+  | other          -- a second array argument (`lhs` of `inverted_zip`)
 deriving Repr, DecidableEq
 
 inductive Fld where
@@ -57,6 +58,7 @@ inductive X where
   | isNull (p : X)
   | guardPtr                       -- `self.ptr` of the `DeallocOnDrop` guard
   | boxOut (p : X)                 -- `Box::from_raw(p.cast())` over the filled array
+  | needsDrop (o : Obj)            -- `mem::needs_drop::<element type of o>()`
 deriving Repr
 
 inductive V where
@@ -114,6 +116,12 @@ inductive S where
                                               -- the environment of its creation (`env.take l0`) plus the source slot
   | pollMapS (l0 : Nat) (src : Obj) (clo : S) (k : S)
                                               -- `src_iter.map(clo).next().is_some()`
+  | callM2 (a b : X) (k : S)                  -- `let v = f(a, b);`: the caller's closure consumes both, returns a value
+  | fillZipMapS (l0 : Nat) (a b : Obj) (clo : S) (body : S) (k : S)
+                                              -- `destination.zip(a_iter.zip(b_iter).map(clo)).for_each(|(dst, v)| body)`:
+                                              -- `clo` binds the two source slots `(l, r)`
+  | pollZipMapS (l0 : Nat) (a b : Obj) (clo : S) (k : S)
+                                              -- `a_iter.zip(b_iter).map(clo).next().is_some()`
   | allocS (k : S)                            -- `let p = alloc::alloc::alloc(layout);` (binds the pointer)
   | abortAlloc                                -- `handle_alloc_error(layout)` (diverges)
   | guardNew (p : X) (k : S)                  -- `let guard = DeallocOnDrop { ptr: p, layout };`
@@ -138,6 +146,8 @@ structure StExt where
   atrace : List AEv := []          -- allocator events so far
   guard : Option V := none         -- a live `DeallocOnDrop { ptr, layout }` (its `ptr`)
   aborted : Bool := false          -- `handle_alloc_error` was reached
+  other : O := ⟨[], 0, 0, 0, []⟩   -- the second array argument
+  otherForgot : Bool := false      -- it was wrapped in `ManuallyDrop` / forgotten
 deriving Repr, DecidableEq
 
 structure St where
@@ -188,10 +198,11 @@ def O.put (o : O) (f : Fld) (v : Nat) : O :=
   | .index => { o with index := v } | .indexBack => { o with indexBack := v } | .position => { o with position := v }
 
 def St.obj (s : St) : Obj → O
-  | .self => s.self | .out => s.out
+  | .self => s.self | .out => s.out | .other => s.ext.other
 def St.putObj (s : St) (o : Obj) (v : O) : St :=
   match o with
   | .self => { s with self := v } | .out => { s with out := v }
+  | .other => { s with ext := { s.ext with other := v } }
 
 def natOf : Option V → Option Nat
   | some (.nat n) => some n
@@ -313,6 +324,11 @@ def eval (c : Ctx) (env : List V) (st : St) : X → Option V
     | some .wild => some (.bool false)
     | _ => none
   | .guardPtr => st.ext.guard
+  | .needsDrop o =>
+    match o with
+    | .self => some (.bool c.ext.ndSelf)
+    | .other => some (.bool c.ext.ndOther)
+    | .out => none
   | .boxOut p =>
     match eval c env st p with
     | some (.ptr b) => if st.hasOut && st.out.uninit.isEmpty then some (.boxed b st.out.slots) else none
@@ -377,6 +393,25 @@ def mapLoop (src : Obj) (clo : V → St → List Ev × R × St) (body : V → V 
         match body d v st' with
         | (tr2, .ret _, st'') =>
           let r := mapLoop src clo body ds st''
+          (tr ++ tr2 ++ r.1, r.2)
+        | (tr2, r, st'') => (tr ++ tr2, r, st'')
+      | r => r
+    else ([], .ret .unit, st)
+
+/-- `destination.zip(a_iter.zip(b_iter).map(clo)).for_each(body)`: per round one destination slot
+    (polled first), then `Zip::next` on the two `slice::Iter`s (random access: one shared cursor
+    `polls`, no side effect when either is exhausted), the closure on the two slots, then the body
+    on (slot, mapped value) -/
+def zipMapLoop (a b : Obj) (clo : V → V → St → List Ev × R × St) (body : V → V → St → List Ev × R × St) :
+    List V → St → List Ev × R × St
+  | [], st => ([], .ret .unit, st)
+  | d :: ds, st =>
+    if st.polls < min (st.obj a).slots.length (st.obj b).slots.length then
+      match clo (.slot a st.polls) (.slot b st.polls) { st with polls := st.polls + 1 } with
+      | (tr, .ret v, st') =>
+        match body d v st' with
+        | (tr2, .ret _, st'') =>
+          let r := zipMapLoop a b clo body ds st''
           (tr ++ tr2 ++ r.1, r.2)
         | (tr2, r, st'') => (tr ++ tr2, r, st'')
       | r => r
@@ -487,6 +522,7 @@ def exec (c : Ctx) : S → List V → St → List Ev × R × St
     match o with
     | .self => exec c k env { st with forgot := true }
     | .out => exec c k env { st with outForgot := true }
+    | .other => exec c k env { st with ext := { st.ext with otherForgot := true } }
   | .lenFail, _, st => ([.lenFail], .panicked, st)
   | .forSlots body k, env, st =>
     match loopOver (fun p s =>
@@ -525,6 +561,31 @@ def exec (c : Ctx) : S → List V → St → List Ev × R × St
   | .pollMapS l0 src clo k, env, st =>
     if st.polls < (st.obj src).slots.length then
       match exec c clo (env.take l0 ++ [.slot src st.polls]) { st with polls := st.polls + 1 } with
+      | (tr, .ret (.elem y), st') =>
+        let r := exec c k (env ++ [.bool true]) st'
+        (tr ++ .drop y :: r.1, r.2)
+      | (tr, .ret _, st') => (tr, .ub, st')
+      | r => r
+    else exec c k (env ++ [.bool false]) st
+  | .callM2 a b k, env, st =>
+    match eval c env st a, eval c env st b with
+    | some (.elem x), some (.elem y) =>
+      match c.cl st.calls with
+      | some z =>
+        let r := exec c k (env ++ [.elem z]) { st with calls := st.calls + 1 }
+        (.give st.calls x :: .give st.calls y :: .take st.calls z :: r.1, r.2)
+      | none => ([.give st.calls x, .give st.calls y, .panic st.calls], .panicked, { st with calls := st.calls + 1 })
+    | _, _ => ([], .ub, st)
+  | .fillZipMapS l0 a b clo body k, env, st =>
+    match zipMapLoop a b (fun p q s => exec c clo (env.take l0 ++ [p, q]) s) (fun d v s => exec c body (env ++ [d, v]) s)
+        (positions .out 0 st.out.slots.length) st with
+    | (tr, .ret _, st') =>
+      let r := exec c k env st'
+      (tr ++ r.1, r.2)
+    | r => r
+  | .pollZipMapS l0 a b clo k, env, st =>
+    if st.polls < min (st.obj a).slots.length (st.obj b).slots.length then
+      match exec c clo (env.take l0 ++ [.slot a st.polls, .slot b st.polls]) { st with polls := st.polls + 1 } with
       | (tr, .ret (.elem y), st') =>
         let r := exec c k (env ++ [.bool true]) st'
         (tr ++ .drop y :: r.1, r.2)
@@ -582,6 +643,7 @@ def runDropOn (c : Ctx) (dropBody : S) (o : Obj) (st : St) : List Ev × R :=
   let st' : St := match o with
     | .self => st
     | .out => { st with self := st.out }
+    | .other => { st with self := st.ext.other }
   let r := exec c dropBody [] st'
   (r.1, r.2.1)
 
@@ -663,6 +725,32 @@ def runFn2 (c : Ctx) (dropSelf dropOut : S) (f : Fn) (args : List V) (st : St) :
       | _, .panicked => R.panicked
       | _, _ => res
     (r.1 ++ d1.1 ++ d2.1, res', st')
+
+/-- two owned arrays held by `ArrayConsumer`s (`left` over `other`, declared first; `right` over
+    `self`) and a builder in an inner frame: at scope end and while unwinding the builder goes first,
+    then `right`, then `left`.  A `ManuallyDrop` wrapper (`forgot` / `otherForgot`) drops nothing. -/
+def runFn3 (c : Ctx) (dropCons dropOut : S) (f : Fn) (args : List V) (st : St) : List Ev × R × St :=
+  let r := exec c f.body args st
+  let st' := r.2.2
+  match r.2.1 with
+  | .ub => r
+  | res =>
+    let d1 : List Ev × R :=
+      if st'.hasOut && !st'.outForgot then runDropOn c dropOut .out st' else ([], .ret .unit)
+    let d2 : List Ev × R :=
+      if !st'.forgot then runDropOn c dropCons .self st' else ([], .ret .unit)
+    let d3 : List Ev × R :=
+      if !st'.ext.otherForgot then runDropOn c dropCons .other st' else ([], .ret .unit)
+    let res' :=
+      match d1.2, d2.2, d3.2 with
+      | .ub, _, _ => R.ub
+      | _, .ub, _ => R.ub
+      | _, _, .ub => R.ub
+      | .panicked, _, _ => R.panicked
+      | _, .panicked, _ => R.panicked
+      | _, _, .panicked => R.panicked
+      | _, _, _ => res
+    (r.1 ++ d1.1 ++ d2.1 ++ d3.1, res', st')
 
 /-- a function with a `DeallocOnDrop` guard and a builder as locals (boxed `generate`): at scope end
     and while unwinding the builder (declared last) is dropped first, then the guard -/
